@@ -132,7 +132,7 @@ type PFMWorld struct {
 	*World
 	endOfChan map[string]string // channel id -> "L@c"
 	chanOfEnd map[string]string // "L@c" -> channel id
-	pfmAddr   map[string]string // chain -> override receiver address
+	pfmAddr   map[string][]string // chain -> override receiver addresses of the middleware (one per route prefix A -> .. -> chain)
 	acctName  map[string]string // chain + "/" + address -> abstract account
 	real      map[string]channeltypes.Packet
 	acks      map[string][]byte
@@ -142,8 +142,8 @@ type PFMWorld struct {
 func pktKey(src, l string, seq int64) string { return fmt.Sprintf("%s/%s/%d", src, l, seq) }
 
 func NewPFMWorld(t *testing.T) *PFMWorld {
-	w := &PFMWorld{World: NewWorld(t, []string{"A", "B", "C", "D"}, []string{"AB", "BC", "CD"}, pfmTick),
-		endOfChan: map[string]string{}, chanOfEnd: map[string]string{}, pfmAddr: map[string]string{}, acctName: map[string]string{},
+	w := &PFMWorld{World: NewWorld(t, []string{"A", "B", "C", "D"}, []string{"AB", "BC", "CD", "BX"}, pfmTick),
+		endOfChan: map[string]string{}, chanOfEnd: map[string]string{}, pfmAddr: map[string][]string{}, acctName: map[string]string{},
 		real: map[string]channeltypes.Packet{}, acks: map[string][]byte{}, sentH: map[string]int64{}}
 	for _, l := range w.links {
 		for _, c := range []string{l.X, l.Y} {
@@ -160,25 +160,39 @@ func NewPFMWorld(t *testing.T) *PFMWorld {
 	for _, c := range w.names {
 		w.ch[c].NextBlock()
 	}
-	// the middleware's override receivers along A -> B -> C -> D
+	// the middleware's override receivers along every route A -> B -> .. of up to three forward hops (the address is
+	// derived from the channel the packet arrives on and the sender of the packet)
 	codec := w.ch["A"].GetSimApp().AccountKeeper.AddressCodec()
-	prev := w.user("A").String()
-	w.pfmAddr["A"] = prev
-	for _, hop := range [][2]string{{"AB", "B"}, {"BC", "C"}, {"CD", "D"}} {
-		addr, err := packetforward.GetReceiver(codec, w.chanOfEnd[hop[0]+"@"+hop[1]], prev)
-		if err != nil {
-			t.Fatalf("override receiver: %v", err)
+	var walk func(c, sender string, depth int)
+	walk = func(c, sender string, depth int) {
+		if depth > 3 {
+			return
 		}
-		w.pfmAddr[hop[1]] = addr
-		prev = addr
+		for _, ln := range lib.SortedKeys(w.links) {
+			l := w.links[ln]
+			if l.X != c && l.Y != c {
+				continue
+			}
+			next := l.other(c)
+			if depth == 0 && ln != "AB" {
+				continue
+			}
+			addr, err := packetforward.GetReceiver(codec, w.chanOfEnd[ln+"@"+next], sender)
+			if err != nil {
+				t.Fatalf("override receiver: %v", err)
+			}
+			if _, seen := w.acctName[next+"/"+addr]; !seen {
+				w.acctName[next+"/"+addr] = "pfm"
+				w.pfmAddr[next] = append(w.pfmAddr[next], addr)
+			}
+			walk(next, addr, depth+1)
+		}
 	}
 	for _, c := range w.names {
 		w.acctName[c+"/"+w.user(c).String()] = "user"
 		w.acctName[c+"/"+w.rcvr(c).String()] = "rcvr"
-		if c != "A" {
-			w.acctName[c+"/"+w.pfmAddr[c]] = "pfm"
-		}
 	}
+	walk("A", w.user("A").String(), 0)
 	// distribute half of TB, TC, TD hop by hop to the user of A (same order as PFMActions.SetUp)
 	d := func(tr []string, b string) PDenom { return PDenom{T: tr, B: b} }
 	plain := func(c, l string, den PDenom) {
@@ -192,6 +206,14 @@ func NewPFMWorld(t *testing.T) *PFMWorld {
 	plain("D", "CD", d(nil, "TD"))
 	plain("C", "BC", d([]string{"CD@C"}, "TD"))
 	plain("B", "AB", d([]string{"BC@B", "CD@C"}, "TD"))
+	// 300 more of TC reach A over the second channel between C and B
+	plainN := func(c, l string, den PDenom, n int64) {
+		lk := w.links[l]
+		w.voucher(lk.hop(lk.other(c)) + "/" + w.denomPath(den))
+		w.setupTransfer(lk, c, w.denomStr(den), n, w.user(lk.other(c)).String())
+	}
+	plainN("C", "BX", d(nil, "TC"), 300)
+	plainN("B", "AB", d([]string{"BX@B"}, "TC"), 300)
 	w.T0 = w.coord.CurrentTime.Truncate(time.Minute).Add(2 * time.Minute)
 	w.now = 0
 	w.beginStep(1)
@@ -276,7 +298,7 @@ func (w *PFMWorld) absAcct(c, addr string) string {
 
 const fakeChanPrefix = "channel-77"
 
-var fakeChanOf = map[string]string{"AB": "01", "BC": "02", "CD": "03"}
+var fakeChanOf = map[string]string{"AB": "01", "BC": "02", "CD": "03", "BX": "04"}
 
 func (w *PFMWorld) memoJSON(c string, hops []PHop) string {
 	if len(hops) == 0 {
@@ -545,9 +567,8 @@ func (w *PFMWorld) State() PState {
 			name string
 			addr sdk.AccAddress
 		}{{"user", w.user(c)}, {"rcvr", w.rcvr(c)}, {"mod", authtypes.NewModuleAddress(transfertypes.ModuleName)}}
-		if c != "A" {
-			addr, err := sdk.AccAddressFromBech32(w.pfmAddr[c])
-			if err == nil {
+		for _, pa := range w.pfmAddr[c] {
+			if addr, err := sdk.AccAddressFromBech32(pa); err == nil {
 				accts = append(accts, struct {
 					name string
 					addr sdk.AccAddress
@@ -567,11 +588,18 @@ func (w *PFMWorld) State() PState {
 				}
 			}
 		}
+		merged := map[string]int{} // account name + bank denomination -> index in st.Bal (the middleware has several accounts)
 		for _, ac := range accts {
 			for _, coin := range app.BankKeeper.GetAllBalances(ctx, ac.addr) {
 				if skip[coin.Denom] || coin.Amount.IsZero() {
 					continue
 				}
+				key := ac.name + "|" + coin.Denom
+				if ix, ok := merged[key]; ok {
+					st.Bal[ix].V += clampInt(coin.Amount)
+					continue
+				}
+				merged[key] = len(st.Bal)
 				st.Bal = append(st.Bal, PBal{C: c, A: ac.name, D: w.absDenom(coin.Denom), V: clampInt(coin.Amount)})
 			}
 		}
